@@ -225,6 +225,7 @@ class Check:
         key = (rel, qual)
         cache = self.__dict__.setdefault("_fn_cache", {})
         if key not in cache:
+            self._binding_integrity(rel, qual, raw)
             from .canon import inline_helpers
             res = self.__dict__.get("_resolver")
             if res is None:
@@ -235,18 +236,75 @@ class Check:
             cache[key] = f
         return cache[key]
 
+    # decorators that leave "calling the name runs this body with these arguments" intact
+    _PLAIN_DECORATORS = {"staticmethod", "classmethod", "property", "abstractmethod", "override", "no_type_check", "final"}
+
+    def _binding_integrity(self, rel, qual, raw):
+        """R0, engine level: every rule reads the *body* of an anchored function.  That body is what runs when the name is called
+        only if (a) no decorator wraps it (a cache, a vectoriser, a retry wrapper change what a call does, whatever the body
+        says), (b) the name is not bound again later in the same scope, and (c) nothing in the package re-binds the attribute
+        from outside (`Cls.name = ...`, `setattr(Cls, "name", ...)`)."""
+        name = qual.rsplit(".", 1)[-1]
+        owner = qual.rsplit(".", 1)[0] if "." in qual else None
+        problems = []
+        for d in raw.decorator_list:
+            txt = ast.unparse(d)
+            last = d.attr if isinstance(d, ast.Attribute) else d.id if isinstance(d, ast.Name) else None
+            if last in self._PLAIN_DECORATORS or last in ("setter", "getter", "deleter"):
+                continue
+            problems.append(f"decorator @{txt} (line {d.lineno})")
+        scope = getattr(raw, "_parent", None)
+        for st in getattr(scope, "body", []) or []:
+            if st is raw or getattr(st, "lineno", 0) < raw.lineno:
+                continue
+            bound = []
+            if isinstance(st, (ast.Assign, ast.AnnAssign, ast.AugAssign)):
+                tg = st.targets if isinstance(st, ast.Assign) else [st.target]
+                for t in tg:
+                    bound += [n.id for n in ast.walk(t) if isinstance(n, ast.Name) and isinstance(n.ctx, ast.Store)]
+            elif isinstance(st, (ast.Import, ast.ImportFrom)):
+                bound += [(a.asname or a.name).split(".")[0] for a in st.names]
+            elif isinstance(st, ast.Delete):
+                bound += [t.id for t in st.targets if isinstance(t, ast.Name)]
+            if name in bound:
+                problems.append(f"`{name}` is bound again in the same scope at line {st.lineno}")
+        if owner is not None:
+            cls = owner.rsplit(".", 1)[-1]
+            for r2, m in self.idx.modules.items():
+                for n in ast.walk(m.tree):
+                    if isinstance(n, (ast.Assign, ast.AugAssign, ast.AnnAssign)):
+                        tg = n.targets if isinstance(n, ast.Assign) else [n.target]
+                        for t in tg:
+                            if isinstance(t, ast.Attribute) and t.attr == name and ast.unparse(t.value).split(".")[-1] == cls:
+                                problems.append(f"{r2}:{n.lineno} assigns {ast.unparse(t)}")
+                    elif isinstance(n, ast.Call) and isinstance(n.func, ast.Name) and n.func.id == "setattr" and len(n.args) >= 2 \
+                            and isinstance(n.args[1], ast.Constant) and n.args[1].value == name \
+                            and ast.unparse(n.args[0]).split(".")[-1] == cls:
+                        problems.append(f"{r2}:{n.lineno} setattr({ast.unparse(n.args[0])}, {name!r}, ...)")
+        self.obs.append(Ob(f"{self.pid}.R0", f"{rel}:{qual}", "body-is-what-the-name-runs", not problems,
+                           "the analysed body is what a call of the name executes: no wrapping decorator, no later re-binding of "
+                           "the name in its scope, no assignment to the attribute from elsewhere in the package",
+                           raw.lineno, {"problems": problems} if problems else {}, "N"))
+
     def borrow(self, rule_fn, mapping, *args, **kw):
         """Run a rule function of another property on a scratch Check and adopt
         the obligations whose rule id is a key of `mapping`, renamed."""
         tmp = Check(self.pid, self.idx, self.tier)
         rule_fn(tmp, *args, **kw)
         n = 0
+        adopted = set()
         for o in tmp.obs:
             if o.rule in mapping:
                 o.rule = mapping[o.rule]
                 self.obs.append(o)
                 self.functions.add(o.where)
+                adopted.add(o.where)
                 n += 1
+        have = {o.where for o in self.obs if o.rule == f"{self.pid}.R0"}
+        for o in tmp.obs:  # the borrowed statements are about those functions' bodies, too
+            if o.rule == f"{self.pid}.R0" and o.where in adopted and o.where not in have:
+                self.obs.append(o)
+                have.add(o.where)
         self.trusted.extend(t for t in tmp.trusted if t not in self.trusted)
         return n
 
@@ -372,6 +430,9 @@ def private_helper_resolver(idx: Index):
             short = q.split(".")[-1]
             if not short.startswith("_") or short.startswith("__"):
                 continue
+            if any((d.attr if isinstance(d, ast.Attribute) else d.id if isinstance(d, ast.Name) else None)
+                   not in Check._PLAIN_DECORATORS for d in n.decorator_list):
+                continue  # a wrapped helper is not its body (R0): its calls stay opaque
             keys = [q] if "." in q else [short]
             if "." in q:
                 keys += [f"self.{short}", f"cls.{short}"]
